@@ -28,9 +28,9 @@ import (
 	"time"
 
 	"github.com/btcsuite/btcd/btcec/v2"
-	"github.com/btcsuite/btclog/v2"
 	"github.com/btcsuite/btcd/btcutil/v2"
 	"github.com/btcsuite/btcd/wire/v2"
+	"github.com/btcsuite/btclog/v2"
 	"github.com/lightningnetwork/lnd/channeldb"
 	"github.com/lightningnetwork/lnd/htlcswitch/hop"
 	"github.com/lightningnetwork/lnd/internal/verif/vstats"
@@ -394,6 +394,7 @@ type c08Run struct {
 	nudges       int
 	flaps        int
 	flapHits     int
+	rescued      bool
 
 	startBal [4]lnwire.MilliSatoshi // a2b, b2a, b2c, c2b local balances
 }
@@ -645,13 +646,13 @@ func (r *c08Run) launch(p *c08Pay) error {
 // switches, mailboxes and circuit maps stay as they are.
 func (r *c08Run) flap(ch int) bool {
 	var (
-		pair       *c08ChanPair
-		sA, sB     *mockServer
-		dA, dB     *mockIteratorDecoder
-		nameA      string
-		nameB      string
-		lA, lB     *channelLink
-		edge       c08Edge
+		pair   *c08ChanPair
+		sA, sB *mockServer
+		dA, dB *mockIteratorDecoder
+		nameA  string
+		nameB  string
+		lA, lB *channelLink
+		edge   c08Edge
 	)
 	if ch == 0 {
 		pair, sA, sB = r.cl.ab, r.n.aliceServer, r.n.bobServer
@@ -982,9 +983,9 @@ func c08ShiftExposed(chans [4]*lnwallet.LightningChannel) bool {
 // channel (no fail on its way) and the wire has been silent for a long
 // time. This is not a timing verdict: nothing in the node will ever touch the
 // HTLC again before it expires.
-func (r *c08Run) stuckForward() string {
+func (r *c08Run) stuckForward(minSilence time.Duration) string {
 	_, since := r.tap.snapshot()
-	if since < r.stuckIdle {
+	if since < minSilence {
 		return ""
 	}
 	cm, ok := r.n.bobServer.htlcSwitch.circuits.(*circuitMap)
@@ -1149,9 +1150,36 @@ func (r *c08Run) run() []string {
 			}
 			r.tap.touch()
 		}
-		if s := r.stuckForward(); s != "" {
+		if s := r.stuckForward(r.stuckIdle); s != "" {
 			r.stuck = s
 			return []string{s}
+		}
+		// Still not quiescent although nudged three times and idle: a
+		// forward whose batch was cut short by a link flap is only
+		// picked up again by a restart (see notes, liveness). One
+		// rescue restart - unless the structural precondition of the
+		// dangling-forward verdict holds, which a restart could mask.
+		if _, since := r.tap.snapshot(); !ok && since >= r.nudgeIdle &&
+			r.nudges >= 3 && !r.rescued && r.stuckForward(0) == "" {
+
+			r.rescued = true
+			r.stopNetwork()
+			chans, err := r.restore()
+			if err != nil {
+				r.inconclusive = "restore: " + err.Error()
+				return nil
+			}
+			if c08ShiftExposed(chans) {
+				r.shiftExposed = true
+			}
+			r.phase++
+			r.tap.newPhase(r.phase)
+			if !r.startNetwork(chans) {
+				return nil
+			}
+			r.requery()
+			r.nudges = 2
+			r.tap.touch()
 		}
 		if time.Now().After(until) {
 			r.inconclusive = "quiescence deadline: " + r.pendingInfo()
@@ -1872,6 +1900,9 @@ func c08RunCase(t *testing.T, plan *c08Plan) *c08Result {
 	}
 	if r.nudges > 0 {
 		lab = append(lab, fmt.Sprintf("nudged=%d", r.nudges))
+	}
+	if r.rescued {
+		lab = append(lab, "rescue_restart")
 	}
 	if res.inconclusive != "" {
 		why := res.inconclusive
